@@ -359,6 +359,9 @@ def _lays(tier):
 
 
 MUTANTS = [
+    dict(name="original F-C16: rechunk on load reads .data of the pool's Future", file="strax/storage/common.py",
+         old="            if executor is not None:\n                # We have to look at the data to split it\n                chunk = chunk.result()\n",
+         new=""),
     dict(name="saver keeps the chunk list of the metadata it was given (copy doubles the chunk list)",
          file="strax/storage/common.py", old='        self.md["chunks"] = []', new='        self.md.setdefault("chunks", [])'),
     dict(name="rechunk on load cuts 500 ns late", file="strax/storage/common.py",
